@@ -76,4 +76,86 @@ Proof.
   pose proof (weigh_length _ _ _ _ _ Ew) as Hlw. rewrite repeat_length in Hlw.
   rewrite alloc_tail_is_model by (symmetry; exact Hlw). reflexivity.
 Qed.
+
+(* ---- the dry run: the functools.singledispatch handlers action_copy / action_move / action_write / action_pass over the nonlocal
+        snapshot_i and the list weights, as harness/translate.py renders them: one step on (snapshot_i, weights) per action;
+        write_weight = read_weight = 1, delete_weight = 0 are the defaults of the signature (compared textually), the only values
+        the constructor of MultistageCheckpointSchedule calls allocate_snapshots with ---- *)
+Fixpoint addat (w : list Z) (i : Z) (d : Z) : list Z :=            (* weights[i] += d, 0 <= i *)
+  match w with [] => [] | x :: r => if i =? 0 then (x + d) :: r else x :: addat r (i - 1) d end.
+Definition handle_shape (snapshots : Z) (cp_action : action) (snapshot_i : Z) (weights : list Z) : res (Z * list Z) :=
+  let read_weight := 1 in let write_weight := 1 in let delete_weight := 0 in
+  match cp_action with
+  | Forward n0 n1 write_ics write_adj_deps storage =>
+    if write_ics then (let snapshot_i := snapshot_i + 1 in
+    if snapshot_i >=? snapshots then Err RuntimeError else
+    let weights := addat weights snapshot_i write_weight in
+    Ok (snapshot_i, weights)) else
+    (Ok (snapshot_i, weights))
+  | Reverse n1 n0 clear_adj_deps =>
+    Ok (snapshot_i, weights)
+  | Copy n from_storage to_storage =>
+    if snapshot_i <? 0 then Err RuntimeError else
+    let weights := addat weights snapshot_i read_weight in
+    Ok (snapshot_i, weights)
+  | Move n from_storage to_storage =>
+    if snapshot_i <? 0 then Err RuntimeError else
+    let weights := addat weights snapshot_i read_weight in
+    if snapshot_i <? 0 then Err RuntimeError else
+    if (st_eqb to_storage WORK) || (st_eqb to_storage WORK) then (let weights := addat weights snapshot_i delete_weight in
+    let snapshot_i := snapshot_i - 1 in
+    Ok (snapshot_i, weights)) else
+    (Ok (snapshot_i, weights))
+  | EndForward =>
+    Ok (snapshot_i, weights)
+  | EndReverse =>
+    Ok (snapshot_i, weights)
+  end.
+(* the driver loop: next(cp_schedule); action(cp_action) -- an exception of the schedule or of a handler ends the run *)
+Fixpoint weigh_shape (snapshots : Z) (acts : list outcome) (snapshot_i : Z) (weights : list Z) : res (list Z * Z) :=
+  match acts with
+  | [] => Ok (weights, snapshot_i)
+  | Yield a :: r => do st <- handle_shape snapshots a snapshot_i weights; weigh_shape snapshots r (fst st) (snd st)
+  | Raise e :: _ => Err e
+  | StopIteration :: r => weigh_shape snapshots r snapshot_i weights
+  end.
+
+Lemma addat_bump : forall w i, 0 <= i -> addat w i 1 = bump w (Z.to_nat i).
+Proof.
+  induction w as [|x r IH]; intros i Hi; [destruct (Z.to_nat i); reflexivity|]. cbn [addat].
+  destruct (Z.eqb_spec i 0) as [->|Hn]; [reflexivity|].
+  replace (Z.to_nat i) with (S (Z.to_nat (i - 1))) by lia. cbn [bump]. rewrite IH by lia. reflexivity.
+Qed.
+Lemma addat_zero : forall w i, addat w i 0 = w.
+Proof. induction w as [|x r IH]; intros i; [reflexivity|]. cbn [addat]. destruct (i =? 0); [rewrite Z.add_0_r; reflexivity|rewrite IH; reflexivity]. Qed.
+
+Theorem weigh_is_shape : forall acts d w, -1 <= d -> weigh acts d w = weigh_shape (Z.of_nat (length w)) acts d w.
+Proof.
+  induction acts as [|o acts IH]; intros d w Hd; [reflexivity|].
+  destruct o as [a| |e]; cbn [weigh weigh_shape]; [|apply IH; exact Hd|reflexivity].
+  destruct a as [n0 n1 wi wa sg|n1 n0 c|n src dst|n src dst| |]; cbn [handle_shape]; cbn zeta.
+  - destruct wi; cbn [bind fst snd]; [|apply IH; exact Hd].
+    destruct (d + 1 >=? Z.of_nat (length w)); [reflexivity|]. cbn [bind fst snd].
+    rewrite addat_bump by lia. rewrite IH by lia. rewrite bump_length. reflexivity.
+  - cbn [bind fst snd]. apply IH; exact Hd.
+  - destruct (Z.ltb_spec d 0); [reflexivity|]. cbn [bind fst snd]. rewrite addat_bump by lia. rewrite IH by lia. rewrite bump_length. reflexivity.
+  - destruct (Z.ltb_spec d 0); [reflexivity|]. rewrite addat_zero, addat_bump by lia.
+    destruct dst; cbn [st_eqb orb bind fst snd]; rewrite IH by lia; rewrite bump_length; reflexivity.
+  - cbn [bind fst snd]. apply IH; exact Hd.
+  - cbn [bind fst snd]. apply IH; exact Hd.
+Qed.
+
+(* Multistage.allocate, all of it, in the shapes read out of the source *)
+Theorem allocate_is_source (n ram disk : Z) (t : traj) :
+  allocate n ram disk t =
+  let '(ram', _, sn) := alloc_pre_shape n ram disk in
+  match weigh_shape (Z.of_nat (Z.to_nat sn)) (run (fuel_for n) {| max_n := n; labels := repeat DISK (Z.to_nat sn); tr := t |} init) (-1) (repeat 0 (Z.to_nat sn)) with
+  | Err e => Err e
+  | Ok (w, _) => Ok (w, alloc_tail_shape w sn ram')
+  end.
+Proof.
+  rewrite allocate_is_shape. unfold alloc_pre_shape. cbn zeta.
+  rewrite weigh_is_shape by lia. rewrite repeat_length. reflexivity.
+Qed.
 Print Assumptions allocate_is_shape.
+Print Assumptions allocate_is_source.
